@@ -73,7 +73,10 @@ def decode_output(out):
         if k == "deco":
             rows.append(("deco", ""))
         else:
-            rows.append((k, canon_text(k, vis)))
+            t = canon_text(k, vis)
+            if t == "" and k in ("zero", "minus", "plus") and vis == "":
+                k = "blank"      # an empty painted prefix (combined diff) leaves only escape sequences
+            rows.append((k, t))
     return rows
 
 
@@ -472,7 +475,8 @@ def canon_model_rows(rows, cfg):
         out.append((pk, t))
     # an empty raw-styled header inside a box is just the box's vertical bar: a decoration row
     for i in range(1, len(out) - 1):
-        if out[i] in (("blank", ""), ("raw", "")) and rows[i][0] == "raw" and out[i - 1][0] == "deco" and out[i + 1][0] == "deco":
+        if out[i] in (("blank", ""), ("raw", "")) and rows[i][0] == "raw" and rows[i][1].strip() == "" \
+                and rows[i][2] == rows[i - 1][2] == rows[i + 1][2] and out[i - 1][0] == "deco" and out[i + 1][0] == "deco":
             out[i] = ("deco", "")
     return out
 
@@ -528,6 +532,8 @@ def compare(cfg, impl, model):
     disagreement descriptions (empty = agree)."""
     if model is None:
         return []
+    if any(o["blame"] == "1" or o["grep"] != "0" for o in impl.obs[:-1]):
+        return []   # blame / grep rows have their own models (C17, C16); the machine model only approximates them
     if not model.ok and not model.panic:
         return ["model driver error: " + model.resp[:100]]
     if model.panic:
